@@ -10,7 +10,7 @@ import z3
 from yaw.binning import Binning
 from yaw.correlation.corrdata import CorrData
 from yaw.correlation.corrfunc import CorrFunc, davis_peebles, landy_szalay
-from yaw.correlation.paircounts import NormalisedCounts, PatchedSumWeights
+from yaw.correlation.paircounts import NormalisedCounts, PatchedCounts, PatchedSumWeights
 from yaw.redshifts import HistData, RedshiftData
 
 from checks.common import member_auto, CORR_MODULES, build_counts, conc_binning, mat, normalised, sym_counts, vec
@@ -117,6 +117,43 @@ class AutoNorm(Harness):
         expc = vec(lambda b: tot(b, None) * tot(b, None), self.B)
         return [Check("auto_half_squared_total", got.data, exp), Check("auto_samples", got.samples, exps),
                 Check("cross_product_of_totals", cross.data, expc)]
+
+
+class ReadOnlyAccessors(Harness):
+    """looking at a container (get_array, sample_patch_sum, totals) must not change it: the value and the samples computed
+    afterwards are the ones computed before, and the stored counts are the inputs"""
+
+    functions = (NormalisedCounts.get_array, PatchedCounts.get_array, PatchedSumWeights.get_array, NormalisedCounts.sample_patch_sum,
+                 CorrFunc.sample)
+    modules = CORR_MODULES
+
+    def __init__(self, B, P, auto):
+        self.B, self.P, self.auto = B, P, auto
+        self.name = "estimator.after_get_array.B%dP%d.%s" % (B, P, "auto" if auto else "cross")
+        self.bounds = "bins=%d patches=%d, dd + dr symbolic; accessors called in between two samplings" % (B, P)
+
+    def make_inputs(self, eng):
+        d = {}
+        for t in ("dd", "dr"):
+            d.update(sym_counts(t, self.B, self.P, member_auto(t, self.auto)))
+        return d
+
+    def body(self, inp):
+        binning = conc_binning(self.B)
+        mk = lambda: CorrFunc(build_counts(inp, "dd", binning, member_auto("dd", self.auto)),
+                              build_counts(inp, "dr", binning, member_auto("dr", self.auto)))
+        ref = mk().sample()
+        cf = mk()
+        a1 = cf.dd.get_array()
+        cf.dr.get_array()
+        cf.dd.counts.get_array()
+        cf.dd.sum_weights.get_array()
+        cf.dd.sample_patch_sum()
+        a2 = cf.dd.get_array()
+        got = cf.sample()
+        return [Check("value_unchanged", got.data, ref.data), Check("samples_unchanged", got.samples, ref.samples),
+                Check("get_array_repeatable", a2, a1), Check("stored_counts_are_the_inputs", cf.dd.counts.counts, inp["dd_c"]),
+                Check("stored_dr_counts_are_the_inputs", cf.dr.counts.counts, inp["dr_c"])]
 
 
 class ZeroWeightBin(Harness):
@@ -273,6 +310,10 @@ def harnesses(tier):
         hs.append(Estimator(("dr", "rr"), True, 1, 5))
     hs.append(Estimator(("dr", "rr"), False, 1, 2, wrong="sign"))
     hs.append(AutoNorm(2, 3))
+    hs.append(ReadOnlyAccessors(1, 2, False))
+    hs.append(ReadOnlyAccessors(1, 2, True))
+    if tier == "thorough":
+        hs.append(ReadOnlyAccessors(2, 3, False))
     if tier == "thorough":
         hs.append(AutoNorm(1, 5))
     for ref, unk in ((False, False), (True, False), (False, True), (True, True)):
